@@ -11,6 +11,7 @@
 -/
 import CC.Simd.Proof.Table
 import CC.Simd.SrcPort
+import CC.Simd.SrcX86
 namespace CC.Thm.C12
 open CC CC.Simd
 
@@ -49,6 +50,26 @@ theorem leafTable_sound (t : Backend × Ty × OpK) (h : t ∈ leafTable) :
 /-- `transpose4` (u32x4x4 only; not a field of the per-type record) on every backend. -/
 theorem transpose4_eq (b : Backend) (a c d e : BitVec 512) :
     implTranspose4 b a c d e = transpose4_512 a c d e := Table.transpose4 b a c d e
+
+/-- **Source tie, x86 backend (word-wise operations).**  `impl b τ` for the five x86 backends is assembled from the
+    hand-written intrinsic sequences of `CC/Simd/Impl/X86.lean`, `X86Wide.lean`.  On every run
+    `tools/inventory_simdx86.py` re-translates `ppv-lite86/src/x86_64/sse2.rs` (incl. `mod avx2`; every impl block, macro
+    bodies expanded with the invocation's arguments, trait methods resolved per `S3` / `S4` flag combination) into
+    `CC.Gen.SimdX86Src`, and the hand-written `+ & | ^ andnot !` (and their `*Assign` forms), every
+    `rotate_each_word_right<k>`, `shuffle*`, `shuffle_lane_words*`, `bswap`, `swap<k>` of `u32x4_sse2`, `u64x2_sse2`,
+    `u128x1_sse2`, `u64x4_sse2`, `u32x4x2_avx2` EQUAL the translation (`CC.Src.X86WordTie`, lean/CC/Simd/SrcX86.lean);
+    the associated types of `impl Machine for SseMachine<S3, S4, NI>` / `for Avx2Machine<NI>` and the aliases
+    `SSE2 … AVX2` of mod.rs, read back through `CC.Src.srcImpl`, select exactly the records of `impl b τ`;
+    nothing was left untranslated; the rows "which macro defines which rotation for which flag", the item-level macro
+    invocation lists, the list of skipped impl blocks (`Debug`, `PartialEq`, `Machine`) and the list of translated
+    definitions are the expected ones. -/
+theorem source_x86_match :
+    CC.Src.X86WordTie ∧
+    (∀ b τ, b ≠ .generic → CC.Src.srcImpl b τ = some (impl b τ)) ∧
+    CC.Gen.SimdX86Src.macro_rows.length = 86 ∧ CC.Gen.SimdX86Src.invocation_rows.length = 53 ∧
+    CC.Gen.SimdX86Src.skipped_rows.length = 14 ∧ CC.Gen.SimdX86Src.def_rows.length = 230 :=
+  ⟨CC.Src.src_x86_word, CC.Src.src_x86_machine_types, by rw [CC.Src.src_x86_macro_rows]; rfl, by rw [CC.Src.src_x86_invocation_rows]; rfl,
+   by rw [CC.Src.src_x86_skipped_rows]; rfl, by rw [CC.Src.src_x86_def_rows]; rfl⟩
 
 /-! ### non-vacuity: the table is not empty, the statements are about real functions, and the
     implementation side really is the intrinsic sequence (byte-counting operands) -/
